@@ -36,6 +36,13 @@ def typeIdOf : Cause → Int
 
 abbrev CRes := Except Cause Nat
 
+instance : DecidableEq CRes := fun a b =>
+  match a, b with
+  | .ok x, .ok y => if h : x = y then isTrue (by rw [h]) else isFalse (fun h' => h (by cases h'; rfl))
+  | .error x, .error y => if h : x = y then isTrue (by rw [h]) else isFalse (fun h' => h (by cases h'; rfl))
+  | .ok _, .error _ => isFalse (fun h' => by cases h')
+  | .error _, .ok _ => isFalse (fun h' => by cases h')
+
 /-- a string/binary: 4-byte big-endian length, then that many bytes -/
 def causeStr (b : Bytes) : CRes :=
   if b.length < 4 then .error .truncated
@@ -118,5 +125,20 @@ def causeLayer (E : UInt8 → Bytes → CRes) (t : UInt8) (b : Bytes) : CRes :=
 def causeBin : Nat → UInt8 → Bytes → CRes
   | 0, _, b => if b.length = 0 then .error .truncated else .error .depth
   | d+1, t, b => if b.length = 0 then .error .truncated else causeLayer (causeElem (causeBin d)) t b
+
+/-- Stream flavour, for BufferReader.Skip (used by the Tie B verdict of the `cause` family).
+    A stream reader asks its source for bytes only when a header or a scalar is actually read, so on
+    entering a nested value the remaining depth and the type code are judged before any byte of the
+    value is requested — there is no "nothing left" check ahead of them; and a struct field that is
+    not fixed-size (a string too) is a nested value.  `truncated` here means: the stream ends before
+    the value does — the one cause that must surface as the wrapped error of the underlying reader. -/
+def causeStream : Nat → UInt8 → Bytes → CRes
+  | 0, _, _ => .error .depth
+  | d+1, t, b =>
+    if t = TT.STRUCT then
+      causeFields (fun ft bb =>
+        if fixedSize ft > 0 then (if fixedSize ft ≤ bb.length then .ok (fixedSize ft) else .error .truncated)
+        else causeStream d ft bb) (b.length + 1) b
+    else causeLayer (causeElem (causeStream d)) t b
 
 end Verif
